@@ -128,4 +128,14 @@ CHECKS = {
                 "a canary TCP flow and/or UDP exchange works over them, undocumented names and wrong-length keys leave the affected side not serving and its main() ended; never a panic.",
         "real": REAL_SYSTEM, "stub": STUB_SYSTEM, "assumptions": ASSUME_SYSTEM + ["the QUIC half of quic / tcp_and_quic is not simulated: only their TCP/UDP halves are checked", "that a named cipher is exactly the named algorithm with the named key derivation is decided by the interoperability check (C03)"],
     },
+    "C14": {
+        "level": "exploration",
+        "parts": [{"gen": "C14", "quick": 4100, "thorough": 4100, "exhaustive": True}],
+        "rule": "the seed is the case index: name length = seed mod 1025 (every length 0..=1024), protocol family = (seed div 1025) mod 4 over {Shadowsocks legacy, Shadowsocks 2022, VMess, Trojan}; the name's bytes, the port, the payload and the "
+                "local handshake (SOCKS5 domain with host-name characters or arbitrary bytes for lengths <= 255, HTTP CONNECT or absolute-URI otherwise) are drawn from the seed. The client<->server link runs through the transparent "
+                "man-in-the-middle node, which counts the bytes the client puts on the wire. Oracle: either the server resolves exactly that name, dials exactly that port and the target receives exactly the payload, or the client sends nothing at all; "
+                "well-formed names of 1..255 bytes must be delivered, empty and longer ones refused. Each run also round-trips the same name through socks5::address::{encode,decode} and vmess::address::{write,read}_address_port "
+                "with a trailing payload. Lengths are enumerated exhaustively, contents are sampled; no schedule or fault matters for this property - the simulator contributes the observation points.",
+        "real": REAL_SYSTEM, "stub": STUB_SYSTEM + ["transparent man-in-the-middle node (byte counter)"], "assumptions": ASSUME_SYSTEM + ["IPv4 / IPv6 literals are covered by C01 and C13"],
+    },
 }
